@@ -31,7 +31,8 @@ ASSUMPTIONS = ["the text is the specification; pv.sexp + pv.refsem read it indep
 CASE_TIMEOUT = 120
 
 OUT_PRE = [
-    ("(p ?x)", "bare-literal"), ("(not (p ?x))", "top-not"), ("(or (p ?x) (r))", "top-or"),
+    ("(p ?x)", "bare-literal"), ("(not (p ?x))", "top-not"), ("(r)", "bare-literal"), ("(not (r))", "top-not"),
+    ("(>= (g ?x) 1)", "bare-literal"), ("(= ?x ?y)", "bare-literal"), ("(not (= ?x ?y))", "top-not"), ("(or (p ?x) (r))", "top-or"),
     ("(and (imply (p ?x) (r)))", "imply"), ("(and (exists (?z - t1) (p ?z)))", "exists"),
     ("(and (p ?x) (imply (r) (p ?y)) (q ?x ?y))", "unknown-between"),
     ("(and (p ?x) (exists (?z - t1) (q ?x ?z)) (not (r)))", "unknown-between"),
